@@ -421,6 +421,31 @@ impl AdmitRig {
         Ok(())
     }
 
+    /// the daemon's gRPC DeletePeer handler on this rig's Global
+    pub(crate) async fn delete_peer(&self, addr: IpAddr) -> Result<(), String> {
+        let svc = GrpcService::new(Arc::new(tokio::sync::Notify::new()), self.active_tx.clone(), self.global.clone(), self.tables.clone());
+        svc.delete_peer(tonic::Request::new(api::DeletePeerRequest { address: addr.to_string(), interface: String::new() })).await.map(|_| ()).map_err(|e| e.to_string())
+    }
+
+    /// start-up after a restart with graceful restart configured, as the configuration loader does it:
+    /// the deferral machine over the configured helpers, its initial outputs applied to the tables
+    pub(crate) async fn start_restarting(&self, gr_peers: FnvHashMap<IpAddr, Vec<Family>>, timer: Option<Duration>) {
+        let (deferral, init_outputs) = crate::gr::RestartingDeferral::new(gr_peers, timer);
+        if !deferral.is_completed() {
+            for output in &init_outputs {
+                if let crate::gr::RestartingOutput::DeferFamilies(families) = output {
+                    self.tables.start_deferral_families(families);
+                }
+            }
+            self.global.write().await.selection_deferral = Some(deferral);
+        }
+    }
+
+    /// the speaker is still in restarting mode (Global.selection_deferral)
+    pub(crate) async fn restarting(&self) -> bool {
+        self.global.read().await.selection_deferral.is_some()
+    }
+
     /// before add_neighbor: the speaker's BGP identifier
     pub(crate) async fn set_router_id(&self, id: Ipv4Addr) {
         self.global.write().await.router_id = id;
